@@ -509,4 +509,28 @@ theorem hashStep_congr {f g : E C → Option UInt64} (a : E C) (h : ∀ x, IsPar
   | unsupported => rfl
 
 
+/-! ## string literals: what `value()` reads from the storage `Copy` filled -/
+
+theorem takeWhile_append_stop (p : UInt8 → Bool) (xs : List UInt8) (y : UInt8) (ys : List UInt8) (hy : p y = false) :
+    (xs ++ y :: ys).takeWhile p = xs.takeWhile p := by
+  induction xs with
+  | nil => simp [List.takeWhile, hy]
+  | cons x xs ih =>
+    simp only [List.cons_append, List.takeWhile_cons]
+    cases p x <;> simp [ih]
+
+theorem copy_then_nul (src buf : List UInt8) (h : src.length < buf.length) :
+    (src ++ buf.drop src.length).set src.length 0 = src ++ 0 :: buf.drop (src.length + 1) := by
+  induction src generalizing buf with
+  | nil =>
+    cases buf with
+    | nil => simp at h
+    | cons b bs => simp
+  | cons x xs ih =>
+    cases buf with
+    | nil => simp at h
+    | cons b bs =>
+      simp only [List.length_cons, List.drop_succ_cons, List.cons_append, List.set_cons_succ]
+      rw [ih bs (by simpa using h)]
+
 end MpVerif.C18
